@@ -78,6 +78,21 @@ theorem repack_step_row_by_row (F : NFrame α) (nest : String) (cols : List (Str
       col.rows = repackedRows cols lens :=
   setFilteredFlatDf_rows F nest cols lens hn hcols hne
 
+/-- **Filtering inside every row, at the level of the frame**: for any per-record outcomes of a
+    condition (`masks`, row by row), filtering the ordinal flat table by the flattened mask and
+    re-packing through `_set_filtered_flat_df` leaves in row `i` exactly the records of row `i`
+    whose mask is set — original order, all fields by the same mask — and makes the row missing
+    when none is kept.  (What `query` does after evaluating the condition; `dropna` with the
+    mask "record has no null in the subset".) -/
+theorem query_filters_rows_of_the_frame (F : NFrame α) (nest : String)
+    (cols : List (String × String × List (List α))) (lens : List Nat) (masks : List (List Bool))
+    (hn : lens.length = F.index.length) (hcols : ∀ c ∈ cols, c.2.2.map List.length = lens)
+    (hmasks : All2 (fun m n => m.length = n) masks lens) (hne : cols ≠ []) :
+    ∃ col, F.setFilteredFlatDf nest ((ordFlat cols lens).filterRows masks.flatten) = .ok (F.setCol nest (.nest col)) ∧
+      col.rows = repackedRows (cols.map fun c => (c.1, c.2.1, filterRowsBy masks c.2.2))
+        (masks.map fun m => (m.filter id).length) :=
+  filter_then_repack F nest cols lens masks hn hcols hmasks hne
+
 /-- non-vacuity of `repack_step_row_by_row`: three rows keeping 2, 0 and 1 records of two fields -/
 example :
     let cols : List (String × String × List (List Nat)) :=
